@@ -571,3 +571,23 @@ Fixpoint sched_by (gd : st -> op -> bool) (s : st) (ops : list op) : bool :=
   | [] => true
   | o :: t => gd s o && sched_by gd (fst (step s o)) t
   end.
+
+(* the promises in force after a run of the model *)
+Definition ghost_after (ops : list op) : ghost := fst (grun [] ops (snd (run init ops))).
+
+(* witness schedules used by the refutation theorems and as harness seeds *)
+Definition works (n : nat) : list op := repeat (Work false) n.
+Definition wit_unban_window : list op :=
+  [Create 1 [7] PMem; MarkComplete 1] ++ works 9 ++
+  [SetMd 1 1 [9]; Work false; EvictMem 1; GetMd 1 1 SAny].
+Definition wit_recreate : list op :=
+  [Create 1 [7] PMem; MarkComplete 1] ++ works 8 ++
+  [Delete 1; Create 1 [8; 8] PMem; MarkComplete 1; Work false; Work false; EvictMem 1; Open 1 SAny].
+Definition wit_resurface : list op :=
+  [Create 1 [7] PMem; MarkComplete 1; Work false; Work false; Delete 1; Work false;
+   Has 1 SAny; Create 1 [6] PMem].
+Definition wit_ok : list op :=
+  [Create 1 [7; 7] PMem; SetMd 1 1 [1]; MarkComplete 1] ++ works 6 ++
+  [SetMd 1 2 [2]] ++ works 3 ++ [SetMd 1 1 [3]] ++ works 12 ++
+  [DelMd 1 2] ++ works 8 ++ [EvictMem 1; Open 1 SAny; GetMd 1 1 SAny; GetMd 1 2 SAny;
+   Delete 1; Has 1 SAny; Create 1 [5] PDisk; MarkComplete 1; Open 1 SComplete].
